@@ -210,6 +210,7 @@ pub fn c15_replay_case(data: &[u8]) -> Option<serde_json::Value> {
         mutations: vec![],
         badlex: if lexmode == 0 { vec![] } else { vec![(lexmode - 1, k)] },
         layout_mode: e.layout_mode,
+        generated: None,
     };
     let _ = Algo::LR;
     serde_json::to_value(case).ok()
